@@ -39,7 +39,7 @@ def gen_job(verif_seed, tier, index):
     elif r < 0.6:
         jobgen.add_user_templates(job, g)
     if job.get("coord_text") is None and not job.get("build_spec") and g.random() < 0.12:
-        jobgen.add_pre_spec(job, g)
+        jobgen.add_pre_variant(job, g)
     if job.get("coord_text") is None:
         if g.random() < 0.2:
             jobgen.add_user_grid(job, g)
